@@ -58,7 +58,7 @@ prop("C09",
                   "mid-chunk hasher state is injected by feeding the last w bytes through the real init/input; that the ring position is irrelevant is the C10 hasher lemma"])
 
 for w, idxs, u in ((1, [0], "quick"), (2, [0, 1], "quick"), (3, [0, 1, 2], "quick"), (4, [0, 1, 2, 3], "thorough"),
-                   (5, [0, 3], "thorough"), (8, [0, 5], "quick"), (16, [0, 9], "thorough"), (32, [0, 31], "thorough"), (64, [0, 17], "thorough")):
+                   (5, [0, 3], "thorough"), (8, [0, 5], "quick"), (16, [0, 9], "quick"), (32, [0, 31], "thorough"), (64, [0, 17], "thorough")):
     for i in idxs:
         h("c10_buz_inductive_step_w%d_i%d" % (w, i), ["C10", "C09"], u,
           "window=%d, ring index=%d (concrete); window bytes, next byte, last_input: all 256 values; repeated_input: any usize < MAX" % (w, i),
